@@ -734,14 +734,17 @@ def check(tier_name: str, seed: int, max_runs: int | None = None) -> int:
 
         # ---- seed invariance + internal consistency on the pristine references
         seed_dep: set = set()
+        crashing: set = set()
         ref_evals = 0
         for tid, t in tmap.items():
             recs = {h: ref[h].get(tid) for h in tier["ref_seeds"] if tid in ref[h]}
             ref_evals += len(recs)
             crashed = [h for h, r in recs.items() if r.get("status") == "crashed"]
             if crashed:
-                harness_errors.append(f"reference child crashed for target {tid} ({t['kind']}, {t.get('family')}) under seeds {crashed}")
-                seed_dep.add(tid)
+                # the pristine process dies on this input (e.g. onnx's C++ shape inference aborts on an attribute value a
+                # generated operator variant made invalid): not a result to compare, and it must not take a whole
+                # simulated process down later, so the target is dropped from the batch (counted in the evidence)
+                crashing.add(tid)
                 continue
             cs = {h: canon(r) for h, r in recs.items()}
             if len(set(cs.values())) > 1:
@@ -759,6 +762,10 @@ def check(tier_name: str, seed: int, max_runs: int | None = None) -> int:
                                        "doc": {"spec": {"mode": "sequential", "env": {"hashseed": h, "gc": "default", "repo": repo, "skew": [0], "aslr_off": True},
                                                         "ops": [t]}}, "detail": f"{t.get('family')}: {iv['keys']}"})
                 break
+
+        if crashing:
+            targets = [t for t in targets if t["id"] not in crashing]
+            tmap = {t["id"]: t for t in targets}
 
         # ---- fresh-interpreter cross-check of the fork-based references
         fr = Rng(seed).sub("fresh")
